@@ -27,7 +27,7 @@ Definition multi_dom_mixed (dec : dict -> bytes -> option (dict * bytes)) (can :
            (st : fstyle) (parts : list mpart) (a : adoc) (file : bytes) : Prop :=
   s_ostms st = [] /\
   LoadsMultiMixed.parts_ok st a dec can (part_xids parts) parts (blen (RefWriter.header st (a_version a))) None [] 0 /\
-  Forall top_ok (LoadsTableProofs.tops st a) /\ utf8_decode (a_version a) <> None /\
+  Forall (top_ok2 a) (LoadsTableProofs.tops st a) /\ utf8_decode (a_version a) <> None /\
   (dict_get (a_trailer a) RefWriter.K_Size = None /\ dict_get (a_trailer a) K_Prev = None /\
    dict_get (a_trailer a) K_Encrypt = None /\ dict_get (a_trailer a) K_XRefStm = None /\
    dict_get (a_trailer a) Xref.K_Index = None /\ dict_get (a_trailer a) K_Filter = None) /\
@@ -66,7 +66,7 @@ Proof.
     set (tp := (id, o, find_istyle (s_objs st) (fst id))).
     assert (Htp : In tp (LoadsTableProofs.tops st a)) by (unfold LoadsTableProofs.tops; apply in_map_iff; exists (id, o); split; [reflexivity|exact Hin]).
     pose proof (P1 tp Htp) as Q. change (fst (fst tp)) with id in Q. rewrite Q.
-    exact (top_same a tp (LoadsMultiFull.top_ok_ok2 a tp (proj1 (Forall_forall _ _) Htops tp Htp))).
+    exact (top_same a tp (proj1 (Forall_forall _ _) Htops tp Htp)).
   - destruct (lookup (d_objects d) id) as [v|] eqn:El; [|exact I]. destruct (P2 id v El) as [[tp [Htp E]]|K]; [|contradiction].
     unfold LoadsTableProofs.tops in Htp. apply in_map_iff in Htp as [io [Eio Hio]]. subst tp. cbn [fst] in E.
     assert (Hin : In (id, snd io) (a_objs a)) by (rewrite <- E; destruct io; exact Hio).
